@@ -54,6 +54,10 @@ func ZZ_C06_triedb() {
 	ml := vrt.Param("maxlen", 2)
 	lens := []int{1, 33}
 	nops := vrt.Param("ops", 3)
+	if zzSmallValues06 {
+		lens = []int{1}
+		nops = 3
+	}
 	var keys [][]byte
 	for s := 0; s < nops; s++ {
 		sfx := string(rune('0' + s))
@@ -108,3 +112,12 @@ func ZZ_C06_triedb() {
 	vrt.Reach("end")
 }
 
+
+var zzSmallValues06 bool
+
+// ZZ_C06_triedb_three_ops: the same harness with three operations and one-byte values only
+// (deletes that collapse a branch need two inserts first).
+func ZZ_C06_triedb_three_ops() {
+	zzSmallValues06 = true
+	ZZ_C06_triedb()
+}
